@@ -67,3 +67,40 @@ func VerifC08DotOrder() {
 	vReach("C08.dot:composed")
 	vAssert(vAnd(vStrEq(first, second), vStrEq(first, third)), "sched:C08.dot.order: the DOT document depends on map iteration order")
 }
+
+func init() { vRegister("VerifC09DotTotals", VerifC09DotTotals) }
+
+// VerifC09DotTotals (property C09): composing a DOT document never panics,
+// whatever the report total is relative to the weights - zero (a mean that
+// rounds to 0, an empty diff), negative, smaller than an edge - and the
+// document stays well formed.
+func VerifC09DotTotals() {
+	f1 := &profile.Function{ID: 1, Name: "main", Filename: "m.go"}
+	f2 := &profile.Function{ID: 2, Name: "work", Filename: "w.go"}
+	l1 := &profile.Location{ID: 1, Line: []profile.Line{{Function: f1, Line: 1}}}
+	l2 := &profile.Location{ID: 2, Line: []profile.Line{{Function: f2, Line: 2}}}
+	w := []int64{10, -10, 1, 0}[vChoice("weight", 4)]
+	div := []int64{0, 1, 3}[vChoice("div", 3)]
+	prof := &profile.Profile{
+		SampleType: []*profile.ValueType{{Type: "delay", Unit: "ns"}, {Type: "count", Unit: "count"}},
+		Function:   []*profile.Function{f1, f2}, Location: []*profile.Location{l1, l2},
+		Sample: []*profile.Sample{{Location: []*profile.Location{l2, l1}, Value: []int64{w, div}, Label: map[string][]string{"k": {"v"}}, NumLabel: map[string][]int64{"bytes": {4}}}},
+	}
+	opt := &Options{SampleValue: func(v []int64) int64 { return v[0] }, FormatTag: func(v int64, unit string) string { return strconv.FormatInt(v, 10) + unit }}
+	if div != 0 {
+		opt.SampleMeanDivisor = func(v []int64) int64 { return v[1] }
+	}
+	g := New(prof, opt)
+	g.SortNodes(false, true)
+	total := []int64{0, 1, -5, 20, 1 << 40}[vChoice("total", 5)]
+	var buf bytes.Buffer
+	ComposeDot(&buf, g, &DotAttributes{}, &DotConfig{Title: "t", Labels: []string{"l"}, Total: total,
+		FormatValue: func(v int64) string { return strconv.FormatInt(v, 10) }})
+	vReach("C09.dottotals:composed")
+	toks, ok := vDotLex(buf.String())
+	if ok {
+		_, _, ok = vDotParse(toks)
+	}
+	vAssert(ok, "C09.dottotals.valid: the DOT document is not well formed for this total")
+	vObserve(len(toks))
+}
